@@ -86,7 +86,7 @@ static bool describe(const json &js, std::vector<int> &out, bool top = true) {
         return true;
     }
     if (js.contains("result")) {
-        if (!js.contains("id") || js.contains("error")) return false;
+        if (!js.contains("id") || (js.contains("error") && !js["error"].is_null())) return false;   // "error":null next to a result: a success
         out.push_back(intern(desc_rsp(id, 0, js["result"])));
         return true;
     }
@@ -308,10 +308,19 @@ struct RpcExec {
         if (k < 1 || k > ids.size() || ids[k - 1] == 0) return;          // request not issued (yet): the operation is skipped
         int id = ids[k - 1];
         to_rpc.clear();
-        int c = 0; std::string v;
+        int c = 0, c2 = 0; std::string v; bool amb = false;
         if (kind == "err") { c = val; peer->sendError(id, val); v = "null"; }
-        else { json r = {{"v", val}}; peer->sendResult(id, r); v = dumps(r); }
-        vh::T().line("{\"e\":\"Rsp\",\"k\":" + std::to_string(k) + ",\"c\":" + std::to_string(c) + ",\"v\":" + std::to_string(intern(v)) + "}");
+        else if (kind == "res_errnull") {     // a success response that also carries "error":null (JSON-RPC 1.x heritage): a success
+            v = "{\"v\":" + std::to_string(val) + "}";
+            Bytes t = frame_text("{\"jsonrpc\":\"2.0\",\"id\":" + std::to_string(id) + ",\"result\":" + v + ",\"error\":null}");
+            to_rpc = t;
+        } else if (kind == "err_resnull") {   // an error object AND "result":null: completes the request; success(null) or the error
+            v = "null"; c = 0; c2 = val < 0 ? val : -val - 1; amb = true;
+            Bytes t = frame_text("{\"jsonrpc\":\"2.0\",\"id\":" + std::to_string(id) + ",\"error\":{\"code\":" + std::to_string(c2) + "},\"result\":null}");
+            to_rpc = t;
+        } else { json r = {{"v", val}}; peer->sendResult(id, r); v = dumps(r); }
+        if (!amb) c2 = c;
+        vh::T().line("{\"e\":\"Rsp\",\"k\":" + std::to_string(k) + ",\"c\":" + std::to_string(c) + ",\"c2\":" + std::to_string(c2) + ",\"v\":" + std::to_string(intern(v)) + "}");
         Bytes b = to_rpc;
         deliver(b);
     }
@@ -325,7 +334,7 @@ struct RpcExec {
         if (kind == "err") { c = val < 0 ? val : -val - 1; t = "{\"jsonrpc\":\"2.0\",\"error\":{\"code\":" + std::to_string(c) + ",\"message\":\"x\"}" + idm + "}"; }
         else if (kind == "req") t = "{\"jsonrpc\":\"2.0\",\"method\":\"nosuch\"" + idm + ",\"params\":[" + std::to_string(val) + "]}";
         else { v = "{\"v\":" + std::to_string(val) + "}"; t = "{\"jsonrpc\":\"2.0\"" + idm + ",\"result\":" + v + "}"; }
-        vh::T().line("{\"e\":\"Rsp\",\"k\":0,\"c\":" + std::to_string(c) + ",\"v\":" + std::to_string(intern(v)) + "}");
+        vh::T().line("{\"e\":\"Rsp\",\"k\":0,\"c\":" + std::to_string(c) + ",\"c2\":" + std::to_string(c) + ",\"v\":" + std::to_string(intern(v)) + "}");
         deliver(frame_text(t));
     }
     void apply(const json &op) {
